@@ -103,12 +103,27 @@ def gen_input(logdir, call_no, N, tfail, ifail, rng, exc="TaskFail"):
         raise KeyError("input failed", N)
 
 
+class LyingList:
+    def __init__(self, items, announced):
+        self.items, self.announced = items, announced
+
+    def __len__(self):
+        return self.announced
+
+    def __iter__(self):
+        return iter(self.items)
+
+
 def one_call(p, c, logdir, call_no, rng, tfail, ifail):
     out = {"values": None, "raised": None}
     try:
         inp = gen_input(logdir, call_no, c["N"], tfail, ifail, rng, c.get("exc", "TaskFail"))
         if c.get("sized") and ifail is None:
             inp = list(inp)            # a sized input: Parallel knows the number of tasks (n_tasks)
+            if c["sized"] in ("under", "over"):
+                # ... or believes it does: len() is a hint (a progress-bar wrapper with an estimated total), the
+                # items are what the iteration yields
+                inp = LyingList(inp, max(0, len(inp) - 4) if c["sized"] == "under" else len(inp) + 3)
         r = p(inp)
         ab = c.get("abandon") if call_no == 1 else None
         if ab and c["return_as"] != "list":
